@@ -1,13 +1,511 @@
 /-
   x86-64 simulation, opcode class `aluOpcodes`: the instruction sequence the JIT emits for each of these eBPF
   instructions, run by the x86-64 machine model, computes what `EngineSem.jitExec` says (statement: `JitSim.ArmSim`).
+  One theorem per opcode (`alu_opXX`), assembled in `armSim_alu`.
 -/
-import RbpfModel.Lemmas.X86Sim.Base
+import RbpfModel.Lemmas.X86Sim.AluBase
+set_option linter.unusedSimpArgs false
 namespace Rbpf.JitSim
-open Rbpf.X86 (Cfg St Out Instr step exec decode fetch readMem writeMem)
-open Rbpf.JitAst (AI Tgt checkSeq window)
+open Rbpf.X86 (Cfg St Out Instr step exec decode fetch readMem writeMem AluOp ShOp)
+open Rbpf.JitAst (AI Tgt checkSeq window arm)
+open Rbpf.EngineSem (jitExec)
+open Rbpf.Interp (lo32 zx32 sx32)
+
+/-- the arm of opcode `h` is the stated instruction list (closes `arm … = .ok (…, 1)`) -/
+macro "alu_arm_tac" h:ident : tactic => `(tactic| (
+  intro haddr pc nxt hd hs
+  unfold arm
+  rw [mapRegister_eq _ hd, mapRegister_eq _ hs, $h:ident]
+  rfl))
+
+/-- reduces `jitExec … = .next {… val …}` for opcode `h` to the equation between the interpreter's value and `val` -/
+macro "alu_int_tac" h:ident hmem:ident : tactic => `(tactic| (
+  intro env s hd hs
+  rw [alu_jitExec_eq env s _ $hmem]
+  unfold Interp.exec
+  rw [$h:ident]
+  first | show Interp.rd _ _ _ = _ | show Interp.wr _ _ _ = _
+  simp only [alu_rd _ _ _ hd, alu_rd _ _ _ hs, alu_wr _ _ _ hd]
+  first | done | apply alu_next_congr))
+
+theorem alu_op07 (i : Insn) (h : i.opc.toNat = 0x07) : ArmSim i := by
+  have hmem : i.opc.toNat ∈ aluOpcodes := by rw [h]; decide
+  refine alu_single i (fun sr ds => .aluRI true .add ds i.imm) (fun d x => aluBV .add d (sx32 i.imm)) (by alu_arm_tac h) ?_
+    (fun c σ sr ds => alu_x_ri64 c σ .add (by decide) (by decide) ds i.imm)
+  alu_int_tac h hmem
+  rfl
+
+theorem alu_op17 (i : Insn) (h : i.opc.toNat = 0x17) : ArmSim i := by
+  have hmem : i.opc.toNat ∈ aluOpcodes := by rw [h]; decide
+  refine alu_single i (fun sr ds => .aluRI true .sub ds i.imm) (fun d x => aluBV .sub d (sx32 i.imm)) (by alu_arm_tac h) ?_
+    (fun c σ sr ds => alu_x_ri64 c σ .sub (by decide) (by decide) ds i.imm)
+  alu_int_tac h hmem
+  rfl
+
+theorem alu_op47 (i : Insn) (h : i.opc.toNat = 0x47) : ArmSim i := by
+  have hmem : i.opc.toNat ∈ aluOpcodes := by rw [h]; decide
+  refine alu_single i (fun sr ds => .aluRI true .or ds i.imm) (fun d x => aluBV .or d (sx32 i.imm)) (by alu_arm_tac h) ?_
+    (fun c σ sr ds => alu_x_ri64 c σ .or (by decide) (by decide) ds i.imm)
+  alu_int_tac h hmem
+  rfl
+
+theorem alu_op57 (i : Insn) (h : i.opc.toNat = 0x57) : ArmSim i := by
+  have hmem : i.opc.toNat ∈ aluOpcodes := by rw [h]; decide
+  refine alu_single i (fun sr ds => .aluRI true .and ds i.imm) (fun d x => aluBV .and d (sx32 i.imm)) (by alu_arm_tac h) ?_
+    (fun c σ sr ds => alu_x_ri64 c σ .and (by decide) (by decide) ds i.imm)
+  alu_int_tac h hmem
+  rfl
+
+theorem alu_opa7 (i : Insn) (h : i.opc.toNat = 0xa7) : ArmSim i := by
+  have hmem : i.opc.toNat ∈ aluOpcodes := by rw [h]; decide
+  refine alu_single i (fun sr ds => .aluRI true .xor ds i.imm) (fun d x => aluBV .xor d (sx32 i.imm)) (by alu_arm_tac h) ?_
+    (fun c σ sr ds => alu_x_ri64 c σ .xor (by decide) (by decide) ds i.imm)
+  alu_int_tac h hmem
+  rfl
+
+theorem alu_op0f (i : Insn) (h : i.opc.toNat = 0x0f) : ArmSim i := by
+  have hmem : i.opc.toNat ∈ aluOpcodes := by rw [h]; decide
+  refine alu_single i (fun sr ds => .aluRR true .add sr ds) (fun d x => aluBV .add d x) (by alu_arm_tac h) ?_
+    (fun c σ sr ds => alu_x_rr64 c σ .add (by decide) (by decide) sr ds)
+  alu_int_tac h hmem
+  rfl
+
+theorem alu_op1f (i : Insn) (h : i.opc.toNat = 0x1f) : ArmSim i := by
+  have hmem : i.opc.toNat ∈ aluOpcodes := by rw [h]; decide
+  refine alu_single i (fun sr ds => .aluRR true .sub sr ds) (fun d x => aluBV .sub d x) (by alu_arm_tac h) ?_
+    (fun c σ sr ds => alu_x_rr64 c σ .sub (by decide) (by decide) sr ds)
+  alu_int_tac h hmem
+  rfl
+
+theorem alu_op4f (i : Insn) (h : i.opc.toNat = 0x4f) : ArmSim i := by
+  have hmem : i.opc.toNat ∈ aluOpcodes := by rw [h]; decide
+  refine alu_single i (fun sr ds => .aluRR true .or sr ds) (fun d x => aluBV .or d x) (by alu_arm_tac h) ?_
+    (fun c σ sr ds => alu_x_rr64 c σ .or (by decide) (by decide) sr ds)
+  alu_int_tac h hmem
+  rfl
+
+theorem alu_op5f (i : Insn) (h : i.opc.toNat = 0x5f) : ArmSim i := by
+  have hmem : i.opc.toNat ∈ aluOpcodes := by rw [h]; decide
+  refine alu_single i (fun sr ds => .aluRR true .and sr ds) (fun d x => aluBV .and d x) (by alu_arm_tac h) ?_
+    (fun c σ sr ds => alu_x_rr64 c σ .and (by decide) (by decide) sr ds)
+  alu_int_tac h hmem
+  rfl
+
+theorem alu_opaf (i : Insn) (h : i.opc.toNat = 0xaf) : ArmSim i := by
+  have hmem : i.opc.toNat ∈ aluOpcodes := by rw [h]; decide
+  refine alu_single i (fun sr ds => .aluRR true .xor sr ds) (fun d x => aluBV .xor d x) (by alu_arm_tac h) ?_
+    (fun c σ sr ds => alu_x_rr64 c σ .xor (by decide) (by decide) sr ds)
+  alu_int_tac h hmem
+  rfl
+
+theorem alu_opbf (i : Insn) (h : i.opc.toNat = 0xbf) : ArmSim i := by
+  have hmem : i.opc.toNat ∈ aluOpcodes := by rw [h]; decide
+  refine alu_single i (fun sr ds => .aluRR true .mov sr ds) (fun d x => aluBV .mov d x) (by alu_arm_tac h) ?_
+    (fun c σ sr ds => alu_x_rr64 c σ .mov (by decide) (by decide) sr ds)
+  alu_int_tac h hmem
+  rfl
+
+theorem alu_op04 (i : Insn) (h : i.opc.toNat = 0x04) : ArmSim i := by
+  have hmem : i.opc.toNat ∈ aluOpcodes := by rw [h]; decide
+  refine alu_single i (fun sr ds => .aluRI false .add ds i.imm) (fun d x => zx32 (aluBV .add (lo32 d) i.imm)) (by alu_arm_tac h) ?_
+    (fun c σ sr ds => alu_x_ri32 c σ .add (by decide) (by decide) ds i.imm)
+  alu_int_tac h hmem
+  rfl
+
+theorem alu_op14 (i : Insn) (h : i.opc.toNat = 0x14) : ArmSim i := by
+  have hmem : i.opc.toNat ∈ aluOpcodes := by rw [h]; decide
+  refine alu_single i (fun sr ds => .aluRI false .sub ds i.imm) (fun d x => zx32 (aluBV .sub (lo32 d) i.imm)) (by alu_arm_tac h) ?_
+    (fun c σ sr ds => alu_x_ri32 c σ .sub (by decide) (by decide) ds i.imm)
+  alu_int_tac h hmem
+  rfl
+
+theorem alu_op44 (i : Insn) (h : i.opc.toNat = 0x44) : ArmSim i := by
+  have hmem : i.opc.toNat ∈ aluOpcodes := by rw [h]; decide
+  refine alu_single i (fun sr ds => .aluRI false .or ds i.imm) (fun d x => zx32 (aluBV .or (lo32 d) i.imm)) (by alu_arm_tac h) ?_
+    (fun c σ sr ds => alu_x_ri32 c σ .or (by decide) (by decide) ds i.imm)
+  alu_int_tac h hmem
+  rfl
+
+theorem alu_op54 (i : Insn) (h : i.opc.toNat = 0x54) : ArmSim i := by
+  have hmem : i.opc.toNat ∈ aluOpcodes := by rw [h]; decide
+  refine alu_single i (fun sr ds => .aluRI false .and ds i.imm) (fun d x => zx32 (aluBV .and (lo32 d) i.imm)) (by alu_arm_tac h) ?_
+    (fun c σ sr ds => alu_x_ri32 c σ .and (by decide) (by decide) ds i.imm)
+  alu_int_tac h hmem
+  rfl
+
+theorem alu_opa4 (i : Insn) (h : i.opc.toNat = 0xa4) : ArmSim i := by
+  have hmem : i.opc.toNat ∈ aluOpcodes := by rw [h]; decide
+  refine alu_single i (fun sr ds => .aluRI false .xor ds i.imm) (fun d x => zx32 (aluBV .xor (lo32 d) i.imm)) (by alu_arm_tac h) ?_
+    (fun c σ sr ds => alu_x_ri32 c σ .xor (by decide) (by decide) ds i.imm)
+  alu_int_tac h hmem
+  rfl
+
+theorem alu_opb4 (i : Insn) (h : i.opc.toNat = 0xb4) : ArmSim i := by
+  have hmem : i.opc.toNat ∈ aluOpcodes := by rw [h]; decide
+  refine alu_single i (fun sr ds => .aluRI false .mov ds i.imm) (fun d x => zx32 (aluBV .mov (lo32 d) i.imm)) (by alu_arm_tac h) ?_
+    (fun c σ sr ds => alu_x_ri32 c σ .mov (by decide) (by decide) ds i.imm)
+  alu_int_tac h hmem
+  rfl
+
+theorem alu_op0c (i : Insn) (h : i.opc.toNat = 0x0c) : ArmSim i := by
+  have hmem : i.opc.toNat ∈ aluOpcodes := by rw [h]; decide
+  refine alu_single i (fun sr ds => .aluRR false .add sr ds) (fun d x => zx32 (aluBV .add (lo32 d) (lo32 x))) (by alu_arm_tac h) ?_
+    (fun c σ sr ds => alu_x_rr32 c σ .add (by decide) (by decide) sr ds)
+  alu_int_tac h hmem
+  rfl
+
+theorem alu_op1c (i : Insn) (h : i.opc.toNat = 0x1c) : ArmSim i := by
+  have hmem : i.opc.toNat ∈ aluOpcodes := by rw [h]; decide
+  refine alu_single i (fun sr ds => .aluRR false .sub sr ds) (fun d x => zx32 (aluBV .sub (lo32 d) (lo32 x))) (by alu_arm_tac h) ?_
+    (fun c σ sr ds => alu_x_rr32 c σ .sub (by decide) (by decide) sr ds)
+  alu_int_tac h hmem
+  rfl
+
+theorem alu_op4c (i : Insn) (h : i.opc.toNat = 0x4c) : ArmSim i := by
+  have hmem : i.opc.toNat ∈ aluOpcodes := by rw [h]; decide
+  refine alu_single i (fun sr ds => .aluRR false .or sr ds) (fun d x => zx32 (aluBV .or (lo32 d) (lo32 x))) (by alu_arm_tac h) ?_
+    (fun c σ sr ds => alu_x_rr32 c σ .or (by decide) (by decide) sr ds)
+  alu_int_tac h hmem
+  rfl
+
+theorem alu_op5c (i : Insn) (h : i.opc.toNat = 0x5c) : ArmSim i := by
+  have hmem : i.opc.toNat ∈ aluOpcodes := by rw [h]; decide
+  refine alu_single i (fun sr ds => .aluRR false .and sr ds) (fun d x => zx32 (aluBV .and (lo32 d) (lo32 x))) (by alu_arm_tac h) ?_
+    (fun c σ sr ds => alu_x_rr32 c σ .and (by decide) (by decide) sr ds)
+  alu_int_tac h hmem
+  rfl
+
+theorem alu_opac (i : Insn) (h : i.opc.toNat = 0xac) : ArmSim i := by
+  have hmem : i.opc.toNat ∈ aluOpcodes := by rw [h]; decide
+  refine alu_single i (fun sr ds => .aluRR false .xor sr ds) (fun d x => zx32 (aluBV .xor (lo32 d) (lo32 x))) (by alu_arm_tac h) ?_
+    (fun c σ sr ds => alu_x_rr32 c σ .xor (by decide) (by decide) sr ds)
+  alu_int_tac h hmem
+  rfl
+
+theorem alu_opbc (i : Insn) (h : i.opc.toNat = 0xbc) : ArmSim i := by
+  have hmem : i.opc.toNat ∈ aluOpcodes := by rw [h]; decide
+  refine alu_single i (fun sr ds => .aluRR false .mov sr ds) (fun d x => zx32 (aluBV .mov (lo32 d) (lo32 x))) (by alu_arm_tac h) ?_
+    (fun c σ sr ds => alu_x_rr32 c σ .mov (by decide) (by decide) sr ds)
+  alu_int_tac h hmem
+  rfl
+
+theorem alu_opb7 (i : Insn) (h : i.opc.toNat = 0xb7) : ArmSim i := by
+  have hmem : i.opc.toNat ∈ aluOpcodes := by rw [h]; decide
+  refine alu_single i (fun sr ds => JitAst.loadImm ds i.imm.toInt) (fun d x => sx32 i.imm) (by alu_arm_tac h) ?_
+    (fun c σ sr ds => by have := alu_x_loadImm c σ ds (sx32 i.imm); rwa [alu_sx_toInt] at this)
+  alu_int_tac h hmem
+  
+
+theorem alu_op67 (i : Insn) (h : i.opc.toNat = 0x67) : ArmSim i := by
+  have hmem : i.opc.toNat ∈ aluOpcodes := by rw [h]; decide
+  refine alu_single i (fun sr ds => .shiftI 64 .shl ds (i.imm.toNat % 256)) (fun d x => aluShBV .shl d (i.imm.toNat % 256 % 64)) (by alu_arm_tac h) ?_
+    (fun c σ sr ds => alu_x_shI64 c σ .shl (by decide) ds _)
+  alu_int_tac h hmem
+  show _ = aluShBV .shl _ _
+  rw [alu_cnt64]; rfl
+
+theorem alu_op77 (i : Insn) (h : i.opc.toNat = 0x77) : ArmSim i := by
+  have hmem : i.opc.toNat ∈ aluOpcodes := by rw [h]; decide
+  refine alu_single i (fun sr ds => .shiftI 64 .shr ds (i.imm.toNat % 256)) (fun d x => aluShBV .shr d (i.imm.toNat % 256 % 64)) (by alu_arm_tac h) ?_
+    (fun c σ sr ds => alu_x_shI64 c σ .shr (by decide) ds _)
+  alu_int_tac h hmem
+  show _ = aluShBV .shr _ _
+  rw [alu_cnt64]; rfl
+
+theorem alu_opc7 (i : Insn) (h : i.opc.toNat = 0xc7) : ArmSim i := by
+  have hmem : i.opc.toNat ∈ aluOpcodes := by rw [h]; decide
+  refine alu_single i (fun sr ds => .shiftI 64 .sar ds (i.imm.toNat % 256)) (fun d x => aluShBV .sar d (i.imm.toNat % 256 % 64)) (by alu_arm_tac h) ?_
+    (fun c σ sr ds => alu_x_shI64 c σ .sar (by decide) ds _)
+  alu_int_tac h hmem
+  show _ = aluShBV .sar _ _
+  rw [alu_cnt64]; rfl
+
+theorem alu_op64 (i : Insn) (h : i.opc.toNat = 0x64) : ArmSim i := by
+  have hmem : i.opc.toNat ∈ aluOpcodes := by rw [h]; decide
+  refine alu_single i (fun sr ds => .shiftI 32 .shl ds (i.imm.toNat % 256)) (fun d x => zx32 (aluShBV .shl (lo32 d) (i.imm.toNat % 256 % 32))) (by alu_arm_tac h) ?_
+    (fun c σ sr ds => alu_x_shI32 c σ .shl (by decide) ds _)
+  alu_int_tac h hmem
+  show _ = zx32 (aluShBV .shl _ _)
+  rw [alu_cnt32]; rfl
+
+theorem alu_op74 (i : Insn) (h : i.opc.toNat = 0x74) : ArmSim i := by
+  have hmem : i.opc.toNat ∈ aluOpcodes := by rw [h]; decide
+  refine alu_single i (fun sr ds => .shiftI 32 .shr ds (i.imm.toNat % 256)) (fun d x => zx32 (aluShBV .shr (lo32 d) (i.imm.toNat % 256 % 32))) (by alu_arm_tac h) ?_
+    (fun c σ sr ds => alu_x_shI32 c σ .shr (by decide) ds _)
+  alu_int_tac h hmem
+  show _ = zx32 (aluShBV .shr _ _)
+  rw [alu_cnt32]; rfl
+
+theorem alu_opc4 (i : Insn) (h : i.opc.toNat = 0xc4) : ArmSim i := by
+  have hmem : i.opc.toNat ∈ aluOpcodes := by rw [h]; decide
+  refine alu_single i (fun sr ds => .shiftI 32 .sar ds (i.imm.toNat % 256)) (fun d x => zx32 (aluShBV .sar (lo32 d) (i.imm.toNat % 256 % 32))) (by alu_arm_tac h) ?_
+    (fun c σ sr ds => alu_x_shI32 c σ .sar (by decide) ds _)
+  alu_int_tac h hmem
+  show _ = zx32 (aluShBV .sar _ _)
+  rw [alu_sx_and]; rw [alu_cnt32]; rfl
+
+theorem alu_op6f (i : Insn) (h : i.opc.toNat = 0x6f) : ArmSim i := by
+  have hmem : i.opc.toNat ∈ aluOpcodes := by rw [h]; decide
+  refine alu_shreg i true .shl (fun d x => aluShBV .shl d (x.toNat % 64)) (by alu_arm_tac h) ?_
+    (fun c σ ds => alu_x_shCl64 c σ .shl (by decide) ds)
+  alu_int_tac h hmem
+  rfl
+
+theorem alu_op7f (i : Insn) (h : i.opc.toNat = 0x7f) : ArmSim i := by
+  have hmem : i.opc.toNat ∈ aluOpcodes := by rw [h]; decide
+  refine alu_shreg i true .shr (fun d x => aluShBV .shr d (x.toNat % 64)) (by alu_arm_tac h) ?_
+    (fun c σ ds => alu_x_shCl64 c σ .shr (by decide) ds)
+  alu_int_tac h hmem
+  rfl
+
+theorem alu_opcf (i : Insn) (h : i.opc.toNat = 0xcf) : ArmSim i := by
+  have hmem : i.opc.toNat ∈ aluOpcodes := by rw [h]; decide
+  refine alu_shreg i true .sar (fun d x => aluShBV .sar d (x.toNat % 64)) (by alu_arm_tac h) ?_
+    (fun c σ ds => alu_x_shCl64 c σ .sar (by decide) ds)
+  alu_int_tac h hmem
+  rfl
+
+theorem alu_op6c (i : Insn) (h : i.opc.toNat = 0x6c) : ArmSim i := by
+  have hmem : i.opc.toNat ∈ aluOpcodes := by rw [h]; decide
+  refine alu_shreg i false .shl (fun d x => zx32 (aluShBV .shl (lo32 d) (x.toNat % 32))) (by alu_arm_tac h) ?_
+    (fun c σ ds => alu_x_shCl32 c σ .shl (by decide) ds)
+  alu_int_tac h hmem
+  show _ = zx32 (aluShBV .shl _ _)
+  rw [alu_cnt32r]; rfl
+
+theorem alu_op7c (i : Insn) (h : i.opc.toNat = 0x7c) : ArmSim i := by
+  have hmem : i.opc.toNat ∈ aluOpcodes := by rw [h]; decide
+  refine alu_shreg i false .shr (fun d x => zx32 (aluShBV .shr (lo32 d) (x.toNat % 32))) (by alu_arm_tac h) ?_
+    (fun c σ ds => alu_x_shCl32 c σ .shr (by decide) ds)
+  alu_int_tac h hmem
+  show _ = zx32 (aluShBV .shr _ _)
+  rw [alu_cnt32r]; rfl
+
+theorem alu_opcc (i : Insn) (h : i.opc.toNat = 0xcc) : ArmSim i := by
+  have hmem : i.opc.toNat ∈ aluOpcodes := by rw [h]; decide
+  refine alu_shreg i false .sar (fun d x => zx32 (aluShBV .sar (lo32 d) (x.toNat % 32))) (by alu_arm_tac h) ?_
+    (fun c σ ds => alu_x_shCl32 c σ .sar (by decide) ds)
+  alu_int_tac h hmem
+  show _ = zx32 (aluShBV .sar _ _)
+  rw [alu_sx_and]; rw [alu_cnt32r]; rfl
+
+theorem alu_op87 (i : Insn) (h : i.opc.toNat = 0x87) : ArmSim i := by
+  have hmem : i.opc.toNat ∈ aluOpcodes := by rw [h]; decide
+  refine alu_single i (fun sr ds => .neg true ds) (fun d x => - d) (by alu_arm_tac h) ?_
+    (fun c σ sr ds => alu_x_neg64 c σ ds)
+  alu_int_tac h hmem
+  
+
+theorem alu_op84 (i : Insn) (h : i.opc.toNat = 0x84) : ArmSim i := by
+  have hmem : i.opc.toNat ∈ aluOpcodes := by rw [h]; decide
+  refine alu_single i (fun sr ds => .neg false ds) (fun d x => zx32 (- lo32 d)) (by alu_arm_tac h) ?_
+    (fun c σ sr ds => alu_x_neg32 c σ ds)
+  alu_int_tac h hmem
+  show _ = zx32 _
+  rw [alu_sx_and]
+
+theorem alu_opd4 (i : Insn) (h : i.opc.toNat = 0xd4) : ArmSim i := by
+  have hmem : i.opc.toNat ∈ aluOpcodes := by rw [h]; decide
+  by_cases h16 : i.imm = 16
+  · refine alu_single i (fun _ ds => .aluRI false .and ds 0xffff#32) (fun d _ => zx32 (aluBV .and (lo32 d) 0xffff#32)) ?_ ?_
+      (fun c σ sr ds => alu_x_ri32 c σ .and (by decide) (by decide) ds _)
+    · intro haddr pc nxt hd hs
+      unfold arm
+      rw [mapRegister_eq _ hd, mapRegister_eq _ hs, h]
+      show (if i.imm = 16 then _ else _) = _
+      rw [if_pos h16]
+    · intro env s hd hs
+      rw [alu_jitExec_eq env s _ hmem]
+      unfold Interp.exec
+      rw [h]
+      show Interp.rd _ _ _ = _
+      simp only [alu_rd _ _ _ hd, if_pos h16, alu_wr _ _ _ hd]
+      apply alu_next_congr
+      exact (alu_le16 _).symm
+  by_cases h32 : i.imm = 32
+  · refine alu_single i (fun _ ds => .aluRR false .mov ds ds) (fun d _ => zx32 (aluBV .mov (lo32 d) (lo32 d))) ?_ ?_
+      (fun c σ sr ds => alu_x_rr32 c σ .mov (by decide) (by decide) ds ds)
+    · intro haddr pc nxt hd hs
+      unfold arm
+      rw [mapRegister_eq _ hd, mapRegister_eq _ hs, h]
+      show (if i.imm = 16 then _ else _) = _
+      rw [if_neg h16, if_pos h32]
+    · intro env s hd hs
+      rw [alu_jitExec_eq env s _ hmem]
+      unfold Interp.exec
+      rw [h]
+      show Interp.rd _ _ _ = _
+      simp only [alu_rd _ _ _ hd, if_neg h16, if_pos h32, alu_wr _ _ _ hd]
+      first | done | (apply alu_next_congr; rfl)
+  intro c tgt haddr pc n a b retAddr ais σ env s s' harm' hchk _ hrip hrel hpc hex
+  obtain ⟨hd, hs⟩ := alu_arm_regs harm'
+  unfold arm at harm'
+  rw [mapRegister_eq _ hd, mapRegister_eq _ hs, h] at harm'
+  change (if i.imm = 16 then _ else _) = _ at harm'
+  rw [if_neg h16, if_neg h32] at harm'
+  by_cases h64 : i.imm = 64
+  · rw [if_pos h64] at harm'
+    injection harm' with harm'
+    injection harm' with e1 e2
+    subst e1 e2
+    rw [checkSeq_nil] at hchk
+    injection hchk with hchk
+    subst hchk
+    rw [alu_jitExec_eq env s _ hmem] at hex
+    unfold Interp.exec at hex
+    rw [h] at hex
+    change Interp.rd _ _ _ = _ at hex
+    simp only [alu_rd _ _ _ hd, if_neg h16, if_neg h32, if_pos h64, alu_wr _ _ _ hd] at hex
+    injection hex with hex
+    subst hex
+    refine ⟨0, σ, rfl, ?_, rfl, Or.inl ⟨hpc, hrip⟩⟩
+    rw [alu_set_self]
+    exact hrel
+  · rw [if_neg h64] at harm'
+    cases harm'
+
+theorem alu_opdc (i : Insn) (h : i.opc.toNat = 0xdc) : ArmSim i := by
+  have hmem : i.opc.toNat ∈ aluOpcodes := by rw [h]; decide
+  by_cases h16 : i.imm = 16
+  · intro c tgt haddr pc n a b retAddr ais σ env s s' harm' hchk _ hrip hrel hpc hex
+    obtain ⟨hd, hs⟩ := alu_arm_regs harm'
+    unfold arm at harm'
+    rw [mapRegister_eq _ hd, mapRegister_eq _ hs, h] at harm'
+    change (if i.imm = 16 then _ else _) = _ at harm'
+    rw [if_pos h16] at harm'
+    injection harm' with harm'
+    injection harm' with e1 e2
+    subst e1 e2
+    rw [alu_jitExec_eq env s _ hmem] at hex
+    unfold Interp.exec at hex
+    rw [h] at hex
+    change Interp.rd _ _ _ = _ at hex
+    simp only [alu_rd _ _ _ hd, if_pos h16, alu_wr _ _ _ hd] at hex
+    injection hex with hex
+    subst hex
+    obtain ⟨n1, hdec1, hrest⟩ := checkSeq_i _ _ _ _ _ _ hchk
+    obtain ⟨σ1, x1, r1, m1, p1⟩ := alu_x_rol16 c σ (regOf i.dst.toNat) (c.codeBase + a + n1)
+    have hrel1 := rel0_congr _ _ _ _ (rel0_wr retAddr σ s i.dst.toNat (alu_rol16 (σ.get (regOf i.dst.toNat))) hd hrel) r1 m1
+    have hst1 : stepsN c 1 σ = some σ1 := stepsN_one _ _ _ (by rw [step_at c σ a n1 _ hrip hdec1]; exact x1)
+    have hg : σ1.get (regOf i.dst.toNat) = alu_rol16 (σ.get (regOf i.dst.toNat)) := by
+      have : σ1.get (regOf i.dst.toNat) = (σ.set (regOf i.dst.toNat) (alu_rol16 (σ.get (regOf i.dst.toNat)))).get (regOf i.dst.toNat) := by
+        simp only [St.get, r1]; rfl
+      rw [this, get_set_eq _ _ _ (regOf_lt _ hd)]
+    have hm2 := alu_x_ri32 c σ1 .and (by decide) (by decide) (regOf i.dst.toNat) 0xffff#32
+    rw [hg, alu_be16, hrel.regs _ hd] at hm2
+    obtain ⟨σ2, h1, h2, h3, h4⟩ :=
+      alu_fall_one c tgt (a + n1) b retAddr σ1 _ _ _ _ hd hrest (by rw [p1, Nat.add_assoc]) hrel1 hm2
+    simp only [Vector.setIfInBounds_setIfInBounds] at h2
+    refine ⟨2, σ2, stepsN_add c 1 1 σ σ1 σ2 hst1 h1, h2, ?_, Or.inl ⟨hpc, h4⟩⟩
+    simp only [topBytes, h3, m1]
+  by_cases h32 : i.imm = 32
+  · refine alu_single i (fun _ ds => .bswap false ds) (fun d _ => Interp.bswap d 4) ?_ ?_
+      (fun c σ sr ds => alu_x_bswap c σ false ds)
+    · intro haddr pc nxt hd hs
+      unfold arm
+      rw [mapRegister_eq _ hd, mapRegister_eq _ hs, h]
+      show (if i.imm = 16 then _ else _) = _
+      rw [if_neg h16, if_pos h32]
+    · intro env s hd hs
+      rw [alu_jitExec_eq env s _ hmem]
+      unfold Interp.exec
+      rw [h]
+      show Interp.rd _ _ _ = _
+      simp only [alu_rd _ _ _ hd, if_neg h16, if_pos h32, alu_wr _ _ _ hd]
+  by_cases h64 : i.imm = 64
+  · refine alu_single i (fun _ ds => .bswap true ds) (fun d _ => Interp.bswap d 8) ?_ ?_
+      (fun c σ sr ds => alu_x_bswap c σ true ds)
+    · intro haddr pc nxt hd hs
+      unfold arm
+      rw [mapRegister_eq _ hd, mapRegister_eq _ hs, h]
+      show (if i.imm = 16 then _ else _) = _
+      rw [if_neg h16, if_neg h32, if_pos h64]
+    · intro env s hd hs
+      rw [alu_jitExec_eq env s _ hmem]
+      unfold Interp.exec
+      rw [h]
+      show Interp.rd _ _ _ = _
+      simp only [alu_rd _ _ _ hd, if_neg h16, if_neg h32, if_pos h64, alu_wr _ _ _ hd]
+  intro c tgt haddr pc n a b retAddr ais σ env s s' harm' hchk _ hrip hrel hpc hex
+  obtain ⟨hd, hs⟩ := alu_arm_regs harm'
+  unfold arm at harm'
+  rw [mapRegister_eq _ hd, mapRegister_eq _ hs, h] at harm'
+  change (if i.imm = 16 then _ else _) = _ at harm'
+  rw [if_neg h16, if_neg h32, if_neg h64] at harm'
+  cases harm'
+
+theorem alu_op18 (i : Insn) (h : i.opc.toNat = 0x18) : ArmSim i := by
+  have hmem : i.opc.toNat ∈ aluOpcodes := by rw [h]; decide
+  intro c tgt haddr pc n a b retAddr ais σ env s s' harm' hchk _ hrip hrel hpc hex
+  obtain ⟨hd, hs⟩ := alu_arm_regs harm'
+  unfold arm at harm'
+  rw [mapRegister_eq _ hd, mapRegister_eq _ hs, h] at harm'
+  rw [alu_jitExec_eq env s _ hmem] at hex
+  unfold Interp.exec at hex
+  rw [h, hpc] at hex
+  cases hnx : getInsn? env.prog (pc + 1) with
+  | none =>
+    rw [hnx] at harm'
+    cases harm'
+  | some nx =>
+    rw [hnx] at harm' hex
+    change Except.ok _ = _ at harm'
+    injection harm' with harm'
+    injection harm' with e1 e2
+    subst e1 e2
+    change Interp.wr _ _ _ = _ at hex
+    rw [alu_wr _ _ _ hd, alu_lddw_val] at hex
+    injection hex with hex
+    subst hex
+    have hm := alu_x_loadImm c σ (regOf i.dst.toNat) (nx.imm ++ i.imm)
+    obtain ⟨σ', h1, h2, h3, h4⟩ :=
+      alu_fall_one c tgt a b retAddr σ _ _ _ _ hd hchk hrip (rel0_pc retAddr σ s (pc + 1 + 1) hrel) hm
+    refine ⟨1, σ', h1, h2, ?_, Or.inl ⟨rfl, h4⟩⟩
+    simp only [topBytes, h3]
 
 theorem armSim_alu (i : Insn) (h : i.opc.toNat ∈ aluOpcodes) : ArmSim i := by
-  sorry
+  simp only [aluOpcodes, List.mem_cons, List.not_mem_nil, or_false] at h
+  rcases h with h | h | h | h | h | h | h | h | h | h | h | h | h | h | h | h | h | h | h | h | h | h | h | h | h | h | h | h | h | h | h | h | h | h | h | h | h | h | h | h | h
+  · exact alu_op07 i h
+  · exact alu_op0f i h
+  · exact alu_op17 i h
+  · exact alu_op1f i h
+  · exact alu_op47 i h
+  · exact alu_op4f i h
+  · exact alu_op57 i h
+  · exact alu_op5f i h
+  · exact alu_op67 i h
+  · exact alu_op6f i h
+  · exact alu_op77 i h
+  · exact alu_op7f i h
+  · exact alu_op87 i h
+  · exact alu_opa7 i h
+  · exact alu_opaf i h
+  · exact alu_opb7 i h
+  · exact alu_opbf i h
+  · exact alu_opc7 i h
+  · exact alu_opcf i h
+  · exact alu_op04 i h
+  · exact alu_op0c i h
+  · exact alu_op14 i h
+  · exact alu_op1c i h
+  · exact alu_op44 i h
+  · exact alu_op4c i h
+  · exact alu_op54 i h
+  · exact alu_op5c i h
+  · exact alu_op64 i h
+  · exact alu_op6c i h
+  · exact alu_op74 i h
+  · exact alu_op7c i h
+  · exact alu_op84 i h
+  · exact alu_opa4 i h
+  · exact alu_opac i h
+  · exact alu_opb4 i h
+  · exact alu_opbc i h
+  · exact alu_opc4 i h
+  · exact alu_opcc i h
+  · exact alu_opd4 i h
+  · exact alu_opdc i h
+  · exact alu_op18 i h
 
 end Rbpf.JitSim
